@@ -3,11 +3,12 @@
   regenerated from the current array_ref.hpp by tools/gen_casts.py (`MultiModel/Gen/CastGen.lean`).  Proof obligations of C12.
 -/
 import MultiModel.Gen.CastGen
+import MultiProofs.TieTactic
 
 namespace Multi.GenTieCast
 open Multi Multi.Gen
 
-theorem ptr_mk (s o : Int) (l : Layout) : (TView.mk s o ⟨0, l⟩).ptr = o := by simp [TView.ptr]
+theorem ptr_mk (s o : Int) (l : Layout) : (TView.mk s o ⟨0, l⟩).ptr = o := by tie_simp [TView.ptr]
 
 theorem beq_decide (a b : Int) : (a == b) = decide (a = b) := by
   by_cases h : a = b <;> simp [h]
@@ -27,7 +28,7 @@ theorem reinterpret_is_the_code (t : TView) (s : Int) :
 
 theorem reinterpret1_is_the_code (e o b : Int) (d : Dim) (s : Int) :
     CAST1_reinterpret ⟨e, o, ⟨b, [d]⟩⟩ s = TView.reinterpret1 ⟨e, o, ⟨b, [d]⟩⟩ s := by
-  simp [CAST1_reinterpret, TView.reinterpret1]
+  tie_simp [CAST1_reinterpret, TView.reinterpret1]
 
 /-- `reinterpret_array_cast<U>(n)`: the raw-pointer and the fancy-pointer branch of the const overload build the same view -/
 theorem reinterpret_n_is_the_code (t : TView) (s n : Int) (isRaw : Bool) :
@@ -51,6 +52,6 @@ theorem cast_assertions_are_the_code (t : TView) (s off n : Int) (isRaw : Bool) 
 
 theorem reinterpret1_asserts_tie (e o b : Int) (d : Dim) (s : Int) :
     CAST1_reinterpret_asserts ⟨e, o, ⟨b, [d]⟩⟩ s = TView.reinterpret1Asserts ⟨e, o, ⟨b, [d]⟩⟩ s := by
-  simp [CAST1_reinterpret_asserts, TView.reinterpret1Asserts]
+  tie_simp [CAST1_reinterpret_asserts, TView.reinterpret1Asserts]
 
 end Multi.GenTieCast
